@@ -15,8 +15,9 @@
 (* Because the lenient SGR reading is set-valued the judge carries the SET  *)
 (* of renditions consistent with everything observed so far; an observed    *)
 (* style must be one of them and narrows the set.  A parameter list outside *)
-(* the well-formed grammar ("odd") makes the rendition unconstrained until  *)
-(* the next full reset.                                                     *)
+(* the well-formed grammar ("odd") makes the BASE rendition unknown until   *)
+(* the next full reset; what later well-formed sequences set on top of it   *)
+(* is still required (SgrStep, KnownOk).                                    *)
 (*                                                                         *)
 (* Deviation flags (judge tolerances for recorded findings):                *)
 (*   AcceptSgrStateLeak      F6: interpreter state survives a parameter     *)
@@ -37,12 +38,26 @@ IsSgr(e) == e.k = "csi" /\ e.b = 109 /\ ~e.ign /\ (e.i = <<>> \/ AcceptIntermedi
 IsVisible(e) == e.k = "print" \/ (e.k = "exec" /\ e.b \in {9, 10, 12, 13})
 CharOf(e) == IF e.k = "print" THEN e.c ELSE e.b
 
+(* After an "odd" list the rendition is unknown - but only the rendition: the NEXT sequence is interpreted on its own, on      *)
+(* top of whatever is in force (nothing of one control function leaks into the next).  The unknown base is represented by     *)
+(* two renditions that differ in every field and in every single effect; well-formed lists are applied to both (and to all     *)
+(* their lenient alternatives); a field - or one effect - on which ALL candidates then agree was set by a sequence since, and   *)
+(* is known (KnownOk).  A full reset as the last token ends the wild phase.                                                     *)
+W1 == [fg |-> <<"idx", 201>>, bg |-> <<"idx", 202>>, ul |-> <<"idx", 203>>, eff |-> {}]
+W2 == [fg |-> <<"idx", 204>>, bg |-> <<"idx", 205>>, ul |-> <<"idx", 206>>, eff |-> Effects]
+KnownOk(S, g) ==
+  LET c == CHOOSE c \in S : TRUE IN
+  /\ ((\A a \in S : a.fg = c.fg) => g.fg = c.fg)
+  /\ ((\A a \in S : a.bg = c.bg) => g.bg = c.bg)
+  /\ ((\A a \in S : a.ul = c.ul) => g.ul = c.ul)
+  /\ \A e \in Effects : ((\A a \in S : (e \in a.eff) = (e \in c.eff)) => ((e \in g.eff) = (e \in c.eff)))
+
 SgrStep(x, p) ==
-  IF ~WellFormed(p) THEN [x EXCEPT !.wild = TRUE]
+  IF ~WellFormed(p) THEN [x EXCEPT !.wild = TRUE, !.S = {W1, W2}]
   ELSE LET S2 == UNION {Apply(g, p, "lenient") : g \in x.S}
            \* a full reset as the LAST token pins the rendition again
            ts == Tokens(p)
-       IN IF x.wild THEN (IF ts[Len(ts)] = <<"code", 0>> THEN [x EXCEPT !.wild = FALSE, !.S = {Default}] ELSE x)
+       IN IF x.wild /\ ts[Len(ts)] = <<"code", 0>> THEN [x EXCEPT !.wild = FALSE, !.S = {Default}]
           ELSE [x EXCEPT !.S = S2]
 
 (* Walk the bytes of one call; obs = observed (style, code point) pairs of that call, k = next      *)
@@ -54,7 +69,7 @@ WalkEvents(x, evs, obs, k) ==
   ELSE LET e == Head(evs) IN
     IF IsVisible(e) /\ CharOf(e) # 127 THEN
        IF k > Len(obs) \/ obs[k][2] # CharOf(e) THEN <<x, k, FALSE>>
-       ELSE IF x.wild THEN WalkEvents(x, Tail(evs), obs, k + 1)
+       ELSE IF x.wild THEN (IF KnownOk(x.S, GrOfStyle(obs[k][1])) THEN WalkEvents(x, Tail(evs), obs, k + 1) ELSE <<x, k, FALSE>>)
        ELSE LET g  == GrOfStyle(obs[k][1])
                 S2 == {c \in x.S : c = g}
             IN IF S2 = {} THEN <<x, k, FALSE>> ELSE WalkEvents([x EXCEPT !.S = S2], Tail(evs), obs, k + 1)
